@@ -21,7 +21,7 @@ class Mesh:
     pass
 
 
-def build_mesh(ctx, shape, symmetric_lengths=False, with_oms=True):
+def build_mesh(ctx, shape, symmetric_lengths=False, with_oms=True, long_links=(), hi_km=1000):
     """network (DiGraph of real elements) for a shape; fibre length of every directed link is a symbolic real in km"""
     from gnpy.topology.spectrum_assignment import build_oms_list
     n, pairs = SHAPES[shape]
@@ -37,7 +37,7 @@ def build_mesh(ctx, shape, symmetric_lengths=False, with_oms=True):
             if symmetric_lengths and (v, u) in lengths:
                 L = lengths[(v, u)]
             else:
-                L = ctx.real(f'km {u}->{v}', lo=1, hi=1000)
+                L = ctx.real(f'km {u}->{v}', lo=1, hi=long_links[frozenset((u, v))] if frozenset((u, v)) in long_links else hi_km)
             lengths[(u, v)] = L
             fid, aid = f'fiber {u}{v}', f'edfa {u}{v}'
             els.append({'uid': fid, 'type': 'Fiber', 'type_variety': 'SSMF',
